@@ -104,6 +104,42 @@ def gen(tier, rng):
             o = bytearray(t)
             o[bit // 8] ^= 1 << (bit % 8)
             yield (f"ct.tag.eq {cxhx(t)} {cxhx(o)}", "tag.bitflip")
+    # cancellation patterns: differences that vanish under a XOR-, ADD- or word-fold of the operands
+    def cancel_pairs(base, word):
+        n = len(base)
+        out = []
+        for i in range(n):
+            for j in range(i + 1, n):
+                if tier == "quick" and not ((j - i) % word == 0 or j - i == 1 or (i * 31 + j * 17) % 11 == 0):
+                    continue
+                d = 1 << rng.randrange(8)
+                o = bytearray(base); o[i] ^= d; o[j] ^= d                      # XOR of all bytes unchanged
+                out.append(bytes(o))
+                o = bytearray(base); e = rng.randrange(1, 256)
+                o[i] = (o[i] + e) % 256; o[j] = (o[j] - e) % 256               # sum of all bytes unchanged
+                out.append(bytes(o))
+        if n >= 2:
+            o = bytearray(base); o[0], o[n - 1] = o[n - 1], o[0]
+            out.append(bytes(o))                                               # permutation
+            out.append(bytes(base[::-1]))
+            out.append(bytes(b ^ 0xff for b in base))                          # every byte differs
+            out.append(bytes(b ^ 0x80 for b in base))
+        return [o for o in out if o != base]
+    for _ in range(2 if tier == "quick" else 6):
+        t = rng.rbytes(16)
+        for o in cancel_pairs(t, 8):
+            yield (f"ct.tag.eq {cxhx(t)} {cxhx(o)}", "tag.cancel")
+            yield (f"ct.macresult.eq {cxhx(t)} {cxhx(o)}", "macresult.cancel")
+    for n in (2, 3, 4, 8, 9, 16, 17, 32, 40):
+        base = rng.rbytes(n)
+        for o in cancel_pairs(base, 8):
+            for op in ("arr8.eq", "arr8.ne", "slice8.eq", "macresult.eq", "arr8.lt", "arr8.ge"):
+                yield (f"ct.{op} {cxhx(base)} {cxhx(o)}", "arr8.cancel")
+    for n in (2, 3, 4, 8):
+        base = rng.rbytes(8 * n)
+        for o in cancel_pairs(base, 8):
+            for op in ("arr64.eq", "arr64.ne", "slice64.eq"):
+                yield (f"ct.{op} {cxhx(base)} {cxhx(o)}", "arr64.cancel")
     # choices
     for a in (0, 1):
         yield (f"ct.choice.not {a}", "choice")
